@@ -5,6 +5,7 @@ package main
 import (
 	"fmt"
 	"go/ast"
+	"go/token"
 	"go/types"
 	"sort"
 )
@@ -78,6 +79,10 @@ func runGuard(p *Prog, r *Report, spec *guardSpec) []guardAccess {
 			pos := p.posStr(a.Sel.Pos())
 			if reason, ok := spec.NoLockNeeded[fname]; ok {
 				r.OK(spec.Rule, construct, pos, "exempt: "+reason)
+				continue
+			}
+			if x.tn == spec.OwnerType && underConstruction(fc, a.Sel.X, spec.OwnerType) {
+				r.OK(spec.Rule, construct, pos, "exempt: the object is being built in this function and is not yet reachable by anyone else")
 				continue
 			}
 			st := LUnlocked
@@ -184,7 +189,6 @@ func runGuard(p *Prog, r *Report, spec *guardSpec) []guardAccess {
 	})
 	return all
 }
-
 
 // inferHelperLockStates computes the lock state inherited by unexported methods of the owner
 // type: a method that is only ever called directly (never used as a value) runs with at least
@@ -409,4 +413,53 @@ func meetLock(a, b LockState) LockState {
 		return LUnlocked
 	}
 	return a
+}
+
+// underConstruction: e denotes a local variable of this function whose only definition is a
+// fresh value of the owner type (new(T), &T{…}, T{…} or a zero declaration) — an object that no
+// other goroutine can see before the function hands it out.
+func underConstruction(fc *FuncCtx, e ast.Expr, typeName string) bool {
+	info := fc.Info()
+	o, _ := objOf(info, e).(*types.Var)
+	if o == nil || o.IsField() || (o.Pkg() != nil && o.Parent() == o.Pkg().Scope()) {
+		return false
+	}
+	if o == fc.RecvObj() {
+		return false
+	}
+	for i := 0; fc.ParamObj(i) != nil; i++ {
+		if fc.ParamObj(i) == types.Object(o) {
+			return false
+		}
+	}
+	defs := fc.Defs(o)
+	if len(defs) != 1 {
+		return false
+	}
+	switch n := fc.G.V[defs[0]].Node.(type) {
+	case *ast.ValueSpec:
+		return len(n.Values) == 0
+	case *ast.AssignStmt:
+		if len(n.Lhs) != len(n.Rhs) {
+			return false
+		}
+		for i, l := range n.Lhs {
+			if objOf(info, l) != types.Object(o) {
+				continue
+			}
+			rhs := ast.Unparen(n.Rhs[i])
+			if u, ok := rhs.(*ast.UnaryExpr); ok && u.Op == token.AND {
+				rhs = ast.Unparen(u.X)
+			}
+			if _, ok := rhs.(*ast.CompositeLit); ok {
+				return true
+			}
+			if c, ok := rhs.(*ast.CallExpr); ok && len(c.Args) == 1 {
+				if id, ok := ast.Unparen(c.Fun).(*ast.Ident); ok && id.Name == "new" {
+					return true
+				}
+			}
+		}
+	}
+	return false
 }
